@@ -1,5 +1,6 @@
 """C20 — retained content is returned intact or not at all."""
 from ..prims import *
+from ..engine import resolve_upvars
 from ..guards import find_guard, side_tokens
 from ..baselines import baseline
 
@@ -130,6 +131,44 @@ def run(ctx):
         base = baseline("C20.%s.%s" % (fn_name, enum), sorted(live))
         for v in base:
             rep.check(v in live, "C20.R5", "live:%s::%s" % (enum, v), "still constructed", "%s no longer rejects with %s::%s" % (fn_name, enum, v), site=f.loc())
+    # every embedded payload is checked against ITS OWN declared digest, whatever its retention posture: in the trees of the
+    # two self-contained payload validators there is a comparison between hash(payload.material_bytes) and
+    # payload.material.material_digest — both sides read from the same embedded-payload value — and it is not nested under a
+    # test of the record posture.
+    SCM = ST + "WscSelfContainedRetainedMaterial"
+    prog.adt(SCM)
+    for nm in ("validate_self_contained_export_retained_payloads", "validate_self_contained_import_retained_payloads"):
+        vf = prog.fn(ST + nm)
+        trv, _ = tree(prog, [vf], stop=lambda i: not i.startswith("warp_core::wsc::"))
+        hit, conditional = None, None
+        for g in trv:
+            if not g.id.startswith("warp_core::wsc::"):
+                continue
+            og_ = g.origins()
+            for (bb, kind, a, b, res, line) in comparisons(g):
+                sides = []
+                for o in (a, b):
+                    ats = og_.of_operand(o, deep=True)
+                    cur, h = ats, g
+                    while h is not None and h.is_closure():
+                        cur = resolve_upvars(h, cur, True)
+                        h = prog.fns.get(h.rec.get("parent"))
+                    sides.append(cur)
+                for x, y in ((sides[0], sides[1]), (sides[1], sides[0])):
+                    hashed = any(at.kind == "call" and at.key[0].endswith("cas_content_hash") for at in x) and any(steps_have(at, "WscSelfContainedRetainedMaterial", "material_bytes") for at in x)
+                    declared = any(steps_have(at, "WscSelfContainedRetainedMaterial", "material") and steps_have(at, "RetainedMaterialRecord", "material_digest") for at in y)
+                    if hashed and declared:
+                        hit = (g, line)
+                        post = [c for c in comparisons(g) if any(steps_have(at, None, "posture") for o in (c[2], c[3]) for at in og_.of_operand(o, deep=True))]
+                        filt = [c for cid in prog.closures_in(g.id) for c in comparisons(prog.fns[cid]) if any(steps_have(at, None, "posture") for o in (c[2], c[3]) for at in prog.fns[cid].origins().of_operand(o, deep=True))]
+                        conditional = bool(post or filt)
+        rep.check(hit is not None, "C20.R5", "self-contained:%s:each-payload-hashes-to-its-own-digest" % nm.split("_")[3],
+                  "hash(payload bytes) is compared with the payload's own declared digest" + (" (%s:%s)" % (hit[0].name, hit[1]) if hit else ""),
+                  "%s no longer compares the hash of each embedded payload's bytes with that payload's own declared digest: an embedded payload can be returned whose bytes do not hash to "
+                  "its material digest" % nm, site=vf.loc())
+        if hit is not None:
+            rep.check(not conditional, "C20.R5", "self-contained:%s:payload-hash-check-ignores-posture" % nm.split("_")[3], "the payload hash check does not depend on the record posture",
+                      "the payload hash check in %s sits in a function that also tests the record posture: payloads of non-Present records may escape it" % hit[0].name, site=hit[0].loc(hit[1]))
     ro = prog.fn(ST + "validate_wsc_ref_only_wal_export")
     for variant, ta, tb in (("ProjectionBasisMismatch", {"c:basis_digest"}, {"c:identity_digest"}), ("ProjectionPayloadMismatch", {"c:wsc_bytes", "p:1"}, {"c:wsc_ref_only_wal_projection_envelope"})):
         st, detail = find_guard(prog, ro, ST + "WscRefOnlyWalImportError", variant, ta, tb)
